@@ -86,6 +86,13 @@ where
                     ),
                     _ => (v_left, v_right),
                 };
+                // like the run time, the quotient of / is a SINGLE, or a DOUBLE if an operand is
+                let quotient_type = match (*op, &v_left, &v_right) {
+                    (Operator::Divide, Variant::VDouble(_), _)
+                    | (Operator::Divide, _, Variant::VDouble(_)) => Some(TypeQualifier::HashDouble),
+                    (Operator::Divide, _, _) => Some(TypeQualifier::BangSingle),
+                    _ => None,
+                };
                 (match *op {
                     Operator::Less => v_left
                         .try_cmp(&v_right)
@@ -122,6 +129,10 @@ where
                     Operator::Or => v_left.or(v_right),
                 })
                 .map_err(LintError::from)
+                .and_then(|v| match quotient_type {
+                    Some(q) => v.cast(q),
+                    _ => Ok(v),
+                })
                 .map_err(|e| e.at(right))
             }
             Expression::UnaryExpression(op, child) => {
